@@ -330,3 +330,34 @@ val run :
 val no_plan : plan
 
 val disk0 : bytes -> role -> fstate
+
+type 'digest bst = { b_file : bytes; b_backup : (bytes * bool) option;
+                     b_md5 : 'digest option }
+
+type phase =
+| K0
+| K1 of nat
+| K2
+| K3
+| Completed
+
+type event =
+| Edit of bytes
+| Run of (bytes -> bytes option) * phase
+
+val own : (bytes -> 'a1) -> ('a1 -> 'a1 -> bool) -> 'a1 bst -> bool
+
+val run_step :
+  (bytes -> 'a1) -> ('a1 -> 'a1 -> bool) -> 'a1 bst -> (bytes -> bytes
+  option) -> phase -> 'a1 bst
+
+val step :
+  (bytes -> 'a1) -> ('a1 -> 'a1 -> bool) -> 'a1 bst -> event -> 'a1 bst
+
+val pstep :
+  (bytes -> 'a1) -> ('a1 -> 'a1 -> bool) -> bytes -> 'a1 bst -> event -> bytes
+
+val admissible :
+  (bytes -> 'a1) -> ('a1 -> 'a1 -> bool) -> 'a1 bst -> event -> bool
+
+val idh : bytes -> bytes
